@@ -114,8 +114,6 @@ class SimDevice:
             body = d[2:]
             items = []
             step = 3 if v2 else 2
-            if len(body) % step:
-                self.violations.append('log block message with ragged body: %s' % d.hex())
             for k in range(len(body) // step):
                 tb = body[k * step]
                 vid = body[k * step + 1] | (body[k * step + 2] << 8) if v2 else body[k * step + 1]
